@@ -888,6 +888,9 @@ impl Inner {
 
         trace!("accept: verified authorization");
 
+        #[cfg(feature = "verif-hooks")]
+        crate::verif_hooks::pause("relay.accept.before_register");
+
         let io = RelayedStream {
             inner: io,
             key_cache: self.key_cache.clone(),
